@@ -37,6 +37,11 @@ type Cfg struct {
 	// Filters: the DECLARED filter of every concurrency quota beyond its host
 	// (nil: every filter is "<host>/*" alone). See filters.go.
 	Filters []QFilter `json:"filters,omitempty"`
+	// Instance: the gateway instance id of the cluster-liveness object registered
+	// (as main.go does) before the quotas are created; nil: no liveness object
+	// (members then end in "unknown"). May be EMPTY: a non-nil pointer to "".
+	// See instance.go.
+	Instance *string `json:"instance_id,omitempty"`
 }
 
 // foreign tells whether quota index q is a rate (fixed-window) quota.
